@@ -274,10 +274,22 @@ func (*Ufs) FidDestroy(sfid *SrvFid) {
 	}
 
 	fid = sfid.Aux.(*ufsFid)
-	fid.Lock()
-	defer fid.Unlock()
-	if fid.file != nil {
-		_ = fid.file.Close()
+	closefile := func() {
+		if fid.file != nil {
+			_ = fid.file.Close()
+		}
+		fid.Unlock()
+	}
+
+	/* the fid can be busy in an operation, even in the very one whose
+	 * response gives up the last reference: close the file when it's done */
+	if fid.TryLock() {
+		closefile()
+	} else {
+		go func() {
+			fid.Lock()
+			closefile()
+		}()
 	}
 }
 
